@@ -48,7 +48,7 @@ def Prog.run (cfg : Cfg K V) : Prog K V C E α → St K V → Vol C V → E → 
   | .fail, s, m, _ => (none, s, m)
   | .get k κ, s, m, e => let r := s.get cfg k; (κ r.2).run cfg r.1 m e
   | .has k κ, s, m, e => let r := s.has cfg k; (κ r.2).run cfg r.1 m e
-  | .set k v κ, s, m, e => let r := s.set cfg k v; (κ r.2).run cfg r.1 m e
+  | .set k v κ, s, m, e => let r := s.set cfg k v; (κ (r.2 == .ok)).run cfg r.1 m e
   | .del k κ, s, m, e => κ.run cfg (s.del cfg k) m e
   | .iter lo hi asc κ, s, m, e => let r := s.iter cfg lo hi asc; (κ r.2).run cfg r.1 m e
   | .getv ver k κ, s, m, e => (κ (s.tree.getVersioned ver k)).run cfg s m e
